@@ -188,33 +188,38 @@ func onlySourceTokens(src []byte, major, minor uint64, root ast.Vertex, got stri
 	sort.SliceStable(ts, func(i, j int) bool { return ts[i].s < ts[j].s })
 	// insertion x standing between source offsets [lo, hi): match against the source pieces there
 	next := 0 // index into pieces: each source token at most once, in order
-	matchGap := func(x string, lo, hi int) bool {
-		for {
-			x = strings.TrimLeft(x, " ")
-			if x == "" {
-				return true
+	// the insertion must be a concatenation of whole source pieces of the gap, in order (pieces may be skipped:
+	// dropped tokens); a piece that is a prefix of the insertion need not be the right one (`?` before `?>`):
+	// backtrack over the choice
+	var matchFrom func(x string, from, lo, hi int) (int, bool)
+	matchFrom = func(x string, from, lo, hi int) (int, bool) {
+		x = strings.TrimLeft(x, " ")
+		if x == "" {
+			return from, true
+		}
+		for k := from; k < len(pieces); k++ {
+			p := pieces[k]
+			if p.S < lo {
+				continue
 			}
-			found := false
-			for next < len(pieces) {
-				p := pieces[next]
-				next++
-				if p.S < lo {
-					continue
-				}
-				if p.E > hi {
-					return false
-				}
-				pt := strings.TrimSpace(p.Text)
-				if pt != "" && strings.HasPrefix(x, pt) {
-					x = x[len(pt):]
-					found = true
-					break
-				}
+			if p.E > hi {
+				return from, false
 			}
-			if !found {
-				return false
+			pt := strings.TrimSpace(p.Text)
+			if pt != "" && strings.HasPrefix(x, pt) {
+				if n, ok := matchFrom(x[len(pt):], k+1, lo, hi); ok {
+					return n, true
+				}
 			}
 		}
+		return from, false
+	}
+	matchGap := func(x string, lo, hi int) bool {
+		n, ok := matchFrom(x, next, lo, hi)
+		if ok {
+			next = n
+		}
+		return ok
 	}
 	i, prevEnd := 0, 0
 	for _, t := range ts {
